@@ -214,6 +214,11 @@ def builtin(eng: Engine, e, st: State, name: str, args: List[V], kwargs):
             return [(st, VScalar(eng.card(arr), T.int))]
         if isinstance(v, VPy) and isinstance(v.obj, tuple) and v.obj[0] == "dictlit":
             return [(st, VPy(len(v.obj[1])))]
+        if isinstance(v, VScalar) and v.ty.kind == "atom":
+            # len of a string: an uninterpreted non-negative integer
+            n = S.func("str_len", S.Atom, z3.IntSort())(v.z)
+            st.assume(n >= 0)
+            return [(st, VScalar(n, T.int))]
         raise Unsupported("len of %s" % type(v).__name__, e)
     if name == "set":
         if not args:
